@@ -206,6 +206,12 @@ impl HeaderWriter {
     pub fn write(&self, term_buffer: &AtomicBuffer, offset: Index, length: Index, term_id: i32) {
         term_buffer.put_ordered::<i32>(offset, -(length));
 
+        #[cfg(kani)]
+        let _vh = match crate::verif_kani::hook::write(term_buffer.ptr, offset + 4, 28, crate::verif_kani::hook::PLAIN) {
+            Some(g) => g,
+            None => return,
+        };
+
         unsafe {
             let hdr = term_buffer.overlay_struct::<DataFrameHeaderDefn>(offset);
 
